@@ -242,7 +242,7 @@ def run(tier, seed):
                      'in': 'symbol=%s' % sym.replace(',', ';'), 'got': 'declared but not defined (link error)', 'exp': 'defined and linkable'}
                 r.update(j.info())
                 res.records.append(r)
-            j2 = Job(j.src, j.cfg, j.compiler, j.std, j.variant, j.part, cflags_override=['-O1'], libs=['-Wl,--unresolved-symbols=ignore-all'])
+            j2 = Job(j.src, j.cfg, j.compiler, j.std, j.variant, j.part, cflags_override=['-O1'], libs=['-no-pie', '-Wl,--unresolved-symbols=ignore-all'])
             relink.append(j2)
         else:
             errs = [l for l in j.build_log.splitlines() if 'error' in l]
